@@ -8,6 +8,7 @@ import (
 	"os"
 	"strings"
 
+	"gobmc/report"
 	"gobmc/run"
 )
 
@@ -64,6 +65,13 @@ func main() {
 			fmt.Printf("fix=%s status=%s %s viol=%d bounds=%v\n", rep.Fix, rep.Status, rep.Reason, len(rep.Violations), rep.Bounds)
 		}
 		return
+	}
+	if *out != "" {
+		o.Progress = func(r *report.Report) {
+			b, _ := json.Marshal([]interface{}{r})
+			os.WriteFile(*out+".tmp", b, 0o644)
+			os.Rename(*out+".tmp", *out)
+		}
 	}
 	rep := run.Run(o)
 	if *out != "" {
